@@ -6,7 +6,7 @@ ROOT = os.path.dirname(os.path.dirname(os.path.abspath(__file__)))
 ORACLE = "runtime monitoring: generated workload through a recording shim at the exported API, judged online by a reference-model oracle"
 CHECKS = {
  "C01": dict(tech=ORACLE + " (naive grammar recogniser); complete edit-distance-1 neighbourhoods + hostile mutation stream; packed-corner and literal-guided objects",
-   text="Every generated string is offered to the four real parsers and to an independent naive recogniser; any accept/reject disagreement, contract breach ((nil,nil)/(obj,err)) or panic is a violation. Exploration of an infinite language: complete edit-distance-1 neighbourhoods of anchor vectors, pairwise covering sets, 28 hostile mutation operators (incl. length wraps at 256/65536), rune twins, decorated anchors, relabelled element blocks, all 65,536 header digit pairs, explicit-copy representations, packed-code corners and literal-guided objects, soup and random bytes.",
+   text="Every generated string is offered to the four real parsers and to an independent naive recogniser; any accept/reject disagreement, contract breach ((nil,nil)/(obj,err)) or panic is a violation. Exploration of an infinite language: complete edit-distance-1 neighbourhoods of anchor vectors, pairwise covering sets, 28 hostile mutation operators (incl. length wraps at 256/65536), rune twins, decorated anchors, relabelled element blocks, all 65,536 header digit pairs, explicit-copy representations, packed-code corners, literal-guided objects and string-literal-guided inputs, soup and random bytes.",
    note="trusts the transcription of the grammar in harness/spec/grammar.go; strings far from any valid vector are only sampled", ref="3 C01"),
  "C06": dict(tech=ORACLE + " (metric map read by the recogniser) on every Get after every accepted parse",
    text="For every accepted string of the stream, Get of every metric is compared with what the string says (explicit value or not-defined default); floor: every (metric,value) explicit and every optional metric omitted at least once.",
